@@ -368,9 +368,45 @@ def carriers(ctx, prog):
         cnt, _, _ = lib.event_counts(srun, [b])
         oks = cnt == {1} and all(o[0] == "arg" and o[1] == 1 and o[-1] == ".setup" for o in os_) and len(t["args"]) == 2 \
             and all(o[0] == "arg" and o[1] == 1 and o[-1] == ".reactor" for o in origins(srun, t["args"][1]))
+        if not oks and cnt == {1} and all(o[0] == "arg" and o[1] == 1 and o[-1] == ".setup" for o in os_) and len(t["args"]) == 2:
+            # the reactor id is not stored in the carrier but handed to run() by its caller: then every caller passes the id of
+            # the command it is running / aborting (the runner its own command, the abort helper the command it was given,
+            # which the runner takes from its own parameter or from the buffered entry it discards)
+            ro_ = origins(srun, t["args"][1])
+            ks_ = {o[1] for o in ro_ if o[0] == "arg" and len(o) == 2}
+            if ro_ and len(ks_) == 1 and all(o[0] == "arg" and len(o) == 2 for o in ro_) and min(ks_) >= 3 \
+                    and srun.local_ty(min(ks_)).endswith("::SystemCommand"):
+                k_ = min(ks_)
+                oks = True
+                R_ = A.runner(prog)
+                for (cb_, b_, t_, fr_) in prog.callers_of(lambda n: n == srun.path):
+                    co_ = origins(cb_, t_["args"][k_ - 1])
+                    if cb_.path == R_.path:
+                        oks = oks and bool(co_) and all(o[0] == "arg" and o[1] == 2 for o in co_)
+                    else:
+                        # a helper of the runner (the abort helper): forwards its own SystemCommand parameter, and the runner
+                        # calls it with its own command or with the `.command` of the entry whose setup / cleanup it passes
+                        ps_ = {o[1] for o in co_ if o[0] == "arg" and len(o) == 2}
+                        oks = oks and bool(co_) and len(ps_) == 1 and all(o[0] == "arg" and len(o) == 2 for o in co_) \
+                            and cb_.local_ty(min(ps_)).endswith("::SystemCommand")
+                        if oks:
+                            for (rb_, b2_, t2_, fr2_) in prog.callers_of(lambda n: n == cb_.path):
+                                so_ = origins(rb_, t2_["args"][min(ps_) - 1])
+                                own_ = bool(so_) and all(o[0] == "arg" and o[1] == 2 and len(o) == 2 for o in so_)
+                                popped_ = bool(so_) and all(o[-1] == ".command" for o in so_)
+                                oks = oks and rb_.path == R_.path and (own_ or popped_)
     ctx.check(oks, "C04.b", "SystemCommandSetup::run:calls-stored-fn-once-with-own-reactor", "%s:%d" % (srun.file, srun.line),
               "(self.setup)(world, self.reactor) exactly once", "SystemCommandSetup::run does not call its stored setup exactly once with its own reactor")
     agg = [st["rv"]["agg"] for b, i, st in snew.iter_stmts() if st["k"] == "assign" and "agg" in st["rv"] and st["rv"]["agg"].get("adt", "").endswith("::SystemCommandSetup")]
-    okn = len(agg) == 1 and lib.originates_from_arg(snew, agg[0]["ops"][agg[0]["fields"].index("reactor")], 1) \
-        and lib.originates_from_arg(snew, agg[0]["ops"][agg[0]["fields"].index("setup")], 2) if agg else False
+    okn = False
+    if len(agg) == 1 and "setup" in agg[0].get("fields", []):
+        fs_ = agg[0]["fields"]
+        # every stored field comes from a distinct constructor argument (`{reactor, setup}` or just `{setup}`)
+        srcs_ = []
+        okn = True
+        for fn_, op_ in zip(fs_, agg[0]["ops"]):
+            oo_ = origins(snew, op_)
+            okn = okn and bool(oo_) and all(o[0] == "arg" and len(o) == 2 for o in oo_) and len({o[1] for o in oo_}) == 1
+            srcs_ += [o[1] for o in oo_][:1]
+        okn = okn and len(set(srcs_)) == len(fs_)
     ctx.check(okn, "C04.b", "SystemCommandSetup::new:stores-its-arguments", "%s:%d" % (snew.file, snew.line), "", "SystemCommandSetup::new does not store (reactor, setup) as given")
